@@ -38,6 +38,46 @@ type Case struct {
 	Path      string `json:"path"`   // request path including the server's base path
 	Filled    string `json:"filled"` // the template this request was built from ("" = neighbour / random)
 	Host      string `json:"host,omitempty"`
+	Scheme    string `json:"scheme,omitempty"` // of the request URL under an absolute server ("" = http)
+}
+
+// absServer: the scheme://host combinations an absolute server declares (through its variables' enums)
+func absServer(server string) []string {
+	switch server {
+	case "http://h.example/base":
+		return []string{"http://h.example"}
+	case "{scheme}://h.example/base":
+		return []string{"https://h.example", "http://h.example"}
+	case "http://{env}.example/base":
+		return []string{"http://prod.example", "http://stage.example", "http://dev.example"}
+	}
+	return nil
+}
+
+// originServed: the routers read a server variable as a wildcard (enums are not enforced), so under
+// http://{env}.example/base every one-label prefix of .example is served
+func originServed(c Case) bool {
+	if c.Server == "http://{env}.example/base" {
+		pre := strings.TrimSuffix(c.Host, ".example")
+		return (c.Scheme == "" || c.Scheme == "http") && pre != c.Host && pre != "" && !strings.Contains(pre, ".")
+	}
+	if c.Server == "{scheme}://h.example/base" && c.Router == "legacy" {
+		// the legacy router matches the server URL as a path pattern: the scheme variable is a wildcard too
+		return c.Host == "h.example"
+	}
+	for _, a := range absServer(c.Server) {
+		if a == c.origin() {
+			return true
+		}
+	}
+	return false
+}
+
+func (c Case) origin() string {
+	if c.Scheme == "" {
+		return "http://" + c.Host
+	}
+	return c.Scheme + "://" + c.Host
 }
 
 func TestMain(m *testing.M) { h.Main(m, "C09") }
@@ -106,6 +146,12 @@ func build(c Case) (*openapi3.T, error) {
 	case "/api/{ver}/{area}":
 		// two server variables that do not occur in alphabetical order
 		raw["servers"] = []any{M{"url": "/api/{ver}/{area}", "variables": M{"ver": M{"default": "v2"}, "area": M{"default": "eu"}}}}
+	case "{scheme}://h.example/base":
+		// the default is listed first in the enum, the other value last
+		raw["servers"] = []any{M{"url": c.Server, "variables": M{"scheme": M{"default": "https", "enum": []any{"https", "http"}}}}}
+	case "http://{env}.example/base":
+		// the default sits in the middle of the enum
+		raw["servers"] = []any{M{"url": c.Server, "variables": M{"env": M{"default": "stage", "enum": []any{"prod", "stage", "dev"}}}}}
 	default:
 		raw["servers"] = []any{M{"url": c.Server}}
 	}
@@ -142,7 +188,7 @@ func refMatches(c Case) []match {
 	if loc == nil {
 		return nil
 	}
-	if c.Server == "http://h.example/base" && c.Host != "h.example" {
+	if absServer(c.Server) != nil && !originServed(c) {
 		return nil
 	}
 	rest := c.Path[loc[1]:]
@@ -175,9 +221,12 @@ func declares(c Case, tpl, method string) bool {
 func request(c Case) *http.Request {
 	u := &url.URL{Path: c.Path}
 	host := "localhost"
-	if c.Server == "http://h.example/base" {
+	if absServer(c.Server) != nil {
 		// a request under an absolute server carries an absolute URL (both routers document this)
 		u.Scheme, u.Host = "http", c.Host
+		if c.Scheme != "" {
+			u.Scheme = c.Scheme
+		}
 		host = c.Host
 	}
 	return &http.Request{Method: c.Method, URL: u, Host: host, Header: http.Header{}}
@@ -248,6 +297,13 @@ func check(c Case) (o h.Outcome) {
 		if route.Method != c.Method {
 			o.Fail("wrong-method:"+c.Router, "route.Method=%q for a %q request", route.Method, c.Method)
 			return
+		}
+		// (C) under an absolute server only the declared scheme://host combinations are served
+		if absServer(c.Server) != nil {
+			if !originServed(c) {
+				o.Fail("routed-under-undeclared-server:"+c.Router, "request %s %s%s is routed (to %q) although no declared server (%s) has that scheme and host", c.Method, c.origin(), c.Path, route.Path, c.Server)
+				return
+			}
 		}
 		// server variables, when returned, carry what the request has at their positions
 		if c.Server == "/api/{ver}/{area}" && strings.HasPrefix(c.Path, "/api/v2/eu") {
@@ -356,7 +412,7 @@ func check(c Case) (o h.Outcome) {
 
 var tplPool = []string{"/a", "/a/{x}", "/a/b", "/{x}", "/{x}/b", "/a/{x}/b", "/a/{x}/{y}", "/{x}/{y}", "/b/{y}", "/b", "/a/b/c", "/a/{x}/c", "/{x}/b/{y}", "/a/b/{y}", "/a/p-{x}", "/a/p-b", "/a/{x}.json", "/a/b.json", "/a/{x}.{y}", "/{x}-{y}/b", "/a/{w}/d", "/{v}/d/{y}"}
 var methodSets = [][]string{{"GET"}, {"POST"}, {"GET", "POST"}, {"GET", "PUT", "DELETE"}}
-var servers = []string{"none", "/v1", "/api/{ver}", "http://h.example/base", "multi:/v1,/v10", "multi:/v10,/v1", "first:/one,/two", "/api/{ver}/{area}"}
+var servers = []string{"none", "/v1", "/api/{ver}", "http://h.example/base", "{scheme}://h.example/base", "http://{env}.example/base", "multi:/v1,/v10", "multi:/v10,/v1", "first:/one,/two", "/api/{ver}/{area}"}
 var values = []string{"1", "abc", "a.b", "x-y_z~", "b", "a"}
 
 func baseOf(server string) string {
@@ -388,20 +444,35 @@ func requestsFor(c Case) []Case {
 	var out []Case
 	base := baseOf(c.Server)
 	seen := map[string]bool{}
-	add := func(method, path, filled, host string) {
-		k := method + " " + path + " " + host
+	add := func(method, path, filled, origin string) {
+		k := method + " " + path + " " + origin
 		if seen[k] {
 			return
 		}
 		seen[k] = true
 		n := c
-		n.Method, n.Path, n.Filled, n.Host = method, path, filled, host
+		n.Method, n.Path, n.Filled = method, path, filled
+		if i := strings.Index(origin, "://"); i >= 0 {
+			n.Scheme, n.Host = origin[:i], origin[i+3:]
+		}
 		out = append(out, n)
 	}
-	host := ""
-	if c.Server == "http://h.example/base" {
-		host = "h.example"
+	origins := absServer(c.Server)
+	if origins == nil {
+		origins = []string{""}
 	}
+	for _, host := range origins {
+		requestsUnder(c, base, host, add)
+	}
+	if origins[0] != "" {
+		add("GET", base+"/a", "", "http://other.test")
+		add("GET", base+"/a", "", "ftp://h.example")
+		add("GET", base+"/a", "", "ftp://prod.example")
+	}
+	return out
+}
+
+func requestsUnder(c Case, base, host string, add func(method, path, filled, origin string)) {
 	for _, t := range c.Templates {
 		for vi := 0; vi < 2; vi++ {
 			p := base + fill(t.Path, func(i int) string { return values[(vi*3+i)%len(values)] })
@@ -446,10 +517,6 @@ func requestsFor(c Case) []Case {
 	}
 	add("GET", base+"/zzz", "", host)
 	add("GET", "/other"+base+"/a", "", host)
-	if host != "" {
-		add("GET", base+"/a", "", "other.example")
-	}
-	return out
 }
 
 func enumerate(shard, nshards int, yield func(Case)) {
@@ -525,8 +592,10 @@ func gen(t *rapid.T) Case {
 	fresh.Filled = tp.Path
 	fresh.Path = baseOf(c.Server) + fill(tp.Path, func(int) string { return rapid.StringMatching(`[A-Za-z0-9._~-]{1,6}`).Draw(t, "val") })
 	fresh.Method = rapid.SampledFrom([]string{"GET", "POST", "PUT", "DELETE"}).Draw(t, "method")
-	if c.Server == "http://h.example/base" {
-		fresh.Host = "h.example"
+	if abs := absServer(c.Server); abs != nil {
+		o := rapid.SampledFrom(abs).Draw(t, "origin")
+		i := strings.Index(o, "://")
+		fresh.Scheme, fresh.Host = o[:i], o[i+3:]
 	}
 	if fresh.Path == baseOf(c.Server)+"/." || strings.Contains(fresh.Path, "/..") || strings.Contains(fresh.Path, "/./") || strings.HasSuffix(fresh.Path, "/.") {
 		// dot segments are normalised away by HTTP stacks before routing
